@@ -13,7 +13,8 @@ EXPLANATION = (
     "the prefix is the attribute unpacked from get_splitted_primary_before or a parameter that receives it at every "
     "call site -- necessary and sufficient for 'every proposal extends the typed text'.  R20.2: the scope walk uses "
     "get_names() only for the innermost scope and get_propagated_names() for enclosing scopes (so class attributes are "
-    "not offered inside methods).  'Returns without internal error at every position' and completeness are not decided."
+    "not offered inside methods).  R20.3: the scope lookup is given the line number and the indentation of the same "
+    "line.  'Returns without internal error at every position' and completeness are not decided."
 )
 ASSUMPTIONS = ["proposal name is the first constructor argument"]
 
@@ -125,3 +126,28 @@ def check(ctx, res) -> None:
             + ("the lineno-is-None branch does not select get_propagated_names(); " if not ok_src else "")
             + ("the entry call does not pass lineno for the innermost scope; " if not ok_ext else "")
             + "class attributes become visible inside methods (or locals of the innermost scope are lost)")
+
+    # ---- R20.3 the scope of the cursor is looked up with the line number and the indentation of the SAME line
+    n3 = 0
+    for mname, m in sorted(eng.methods.items()):
+        for c in calls_in(m.node):
+            if call_name(c) != "get_inner_scope_for_line" or len(c.args) < 2:
+                continue
+            n3 += 1
+            line_arg, ind_arg = c.args[0], c.args[1]
+            src = None
+            if isinstance(ind_arg, ast.Name):
+                for n in walk_local(m.node):
+                    if isinstance(n, ast.Assign) and isinstance(n.targets[0], ast.Name) and n.targets[0].id == ind_arg.id:
+                        src = n.value
+            ok = None
+            if src is not None and isinstance(src, ast.Call) and src.args and isinstance(src.args[0], ast.Subscript):
+                ix = src.args[0].slice
+                # lines[L - 1]  (1-based line number into a 0-based list)
+                ok = isinstance(ix, ast.BinOp) and isinstance(ix.op, ast.Sub) and norm(ix.left) == norm(line_arg) \
+                    and isinstance(ix.right, ast.Constant) and ix.right.value == 1
+            res.add("R20.3", f"{mname}|get_inner_scope_for_line", ok, f"{m.unit.rel}:{c.lineno}",
+                    "scope lookup uses the line number and the indentation of the same line" if ok else
+                    "the holding scope is looked up with the line number of one line and the indentation of another: on a continuation line "
+                    "indented differently from its statement the enclosing class/outer scope is chosen, so locals are not offered and class attributes are")
+    res.floor("R20.3", "indent-qualified scope lookups", n3, 1)
